@@ -3,6 +3,29 @@
 #include <stdint.h>
 #include <string.h>
 union symx_vec { uint32_t d[8]; uint64_t q[4]; double pd[4]; uint8_t b[32]; };
+#if defined(__CPROVER__) && defined(SYMX_FP_UF)
+/* floating-point operations as uninterpreted functions (commutativity of + and * kept by operand normalisation):
+   used where a property is about which expression / which cells are computed, not about rounding */
+double __CPROVER_uninterpreted_fadd(double, double);
+double __CPROVER_uninterpreted_fsub(double, double);
+double __CPROVER_uninterpreted_fmul(double, double);
+double __CPROVER_uninterpreted_fdiv(double, double);
+/* results are arbitrary but never NaN (x == x must hold for a value that is stored and compared later) */
+static inline int symx_uf_le(double a, double b) { return (a < b) || (a == b && (__CPROVER_signd(a) || !__CPROVER_signd(b))); }
+static inline double symx_uf_fadd(double a, double b) { double r = symx_uf_le(a, b) ? __CPROVER_uninterpreted_fadd(a, b) : __CPROVER_uninterpreted_fadd(b, a); __CPROVER_assume(r == r); return r; }
+static inline double symx_uf_fmul(double a, double b) { double r = symx_uf_le(a, b) ? __CPROVER_uninterpreted_fmul(a, b) : __CPROVER_uninterpreted_fmul(b, a); __CPROVER_assume(r == r); return r; }
+static inline double symx_uf_fsub(double a, double b) { double r = __CPROVER_uninterpreted_fsub(a, b); __CPROVER_assume(r == r); return r; }
+static inline double symx_uf_fdiv(double a, double b) { double r = __CPROVER_uninterpreted_fdiv(a, b); __CPROVER_assume(r == r); return r; }
+#  define SYMX_FADD(a, b) symx_uf_fadd((a), (b))
+#  define SYMX_FMUL(a, b) symx_uf_fmul((a), (b))
+#  define SYMX_FSUB(a, b) symx_uf_fsub((a), (b))
+#  define SYMX_FDIV(a, b) symx_uf_fdiv((a), (b))
+#else
+#  define SYMX_FADD(a, b) ((a) + (b))
+#  define SYMX_FSUB(a, b) ((a) - (b))
+#  define SYMX_FMUL(a, b) ((a) * (b))
+#  define SYMX_FDIV(a, b) ((a) / (b))
+#endif
 #ifdef __CPROVER__
 #  ifdef SYMX_WITNESS
      /* reachability twin: every property assertion is dropped, the witness point must FAIL */
